@@ -1178,7 +1178,7 @@ fn count_unsafe() -> i64 {
     }
     let mut n = 0;
     for c in ["h263/src", "yuv/src", "deblock/src"] {
-        walk(&std::path::Path::new("/repo").join(c), &mut n);
+        walk(&std::path::Path::new(&std::env::var("VERIF_REPO").unwrap_or_else(|_| "/repo".to_string())).join(c), &mut n);
     }
     n
 }
